@@ -13,7 +13,7 @@ def run(chk):
     rng = random.Random(chk.seed)
     maxlen = 4 if chk.tier == 'quick' else 5
     chk.rule = ('all strings up to length %d over the %d-symbol alphabet %s in expression position (modes expr and file `package p; var _ = <s>`); '
-                'oracle: hook H2 counter is zero.  non-trivial: contains a multi-byte char; distinct by text.' % (maxlen, len(ALPHA), ''.join(ALPHA)))
+                'and short bodies in files with 0-2 byte order marks and LF / CR LF through parse_file; oracle: hook H2 counter is zero.  non-trivial: contains a multi-byte char; distinct by text.' % (maxlen, len(ALPHA), ''.join(ALPHA)))
     cases = []
     for n in range(1, maxlen + 1):
         for t in itertools.product(ALPHA, repeat=n):
@@ -28,7 +28,29 @@ def run(chk):
     sp = streams.utf8_soup(rng, 4000 if chk.tier == 'quick' else 80000)
     a2, b2 = run_both(chk, 'utf8-soup', sp, robust=False)
     chk.count('utf8-soup', sp, [s for (m, s) in sp if any(ord(c) > 127 for c in s)])
+    # the same conversions behind the file entry point (BOM stripping, CR LF): bytes on disk through parse_file
+    import os
+    BOM = '\ufeff'
+    bodies = [''.join(t) for n in range(1, 4) for t in itertools.product(ALPHA, repeat=n)]
+    rng.shuffle(bodies)
+    bodies = bodies[:1500 if chk.tier == 'quick' else len(bodies)]
+    disk = []
+    for i, bdy in enumerate(bodies):
+        pre = [BOM, '', BOM + BOM, BOM][i % 4]
+        nl = ['\n', '\r\n'][i % 2]
+        disk.append(('disk', pre + 'package p' + nl + 'func f() { x := ' + bdy + ' }' + nl))
+    disk += [('disk', BOM + t) for (m, t) in sp[:500] if m == 'file']
+    dl = [R.case_line(m, t) for m, t in disk]
+    da = R.impl(dl, robust=True, extra=['--workdir', os.path.join(R.WORK, 'tmp')])
+    db = R.model(dl)
+    for i in R.compare(dl, da, db):
+        chk.disagree('disk', disk[i][0], disk[i][1], da[i], db[i])
+        if len(chk.disagreements) <= 3: chk.log(f'[disk] DISAGREEMENT on {disk[i][1]!r:.200}\n   impl : {R.core(da[i])[1][:300]}\n   model: {R.core(db[i])[1][:300]}')
+    for (m, t), l in zip(disk, da):
+        if l.startswith('u=') and not l.startswith('u=0 '):
+            chk.oracle_fail('utf8-invalid-slice', m, t, l[:200], 'u=0', 'hook H2: a byte slice that is not valid UTF-8 reached from_utf8_unchecked through parse_file')
+    chk.count('disk', disk, [t for (m, t) in disk if t.startswith(BOM)])
     for (m, s), l in list(zip(cases, a))[5000:5003]:
         chk.sample({'mode': m, 'input': s, 'impl': l[:200]})
-    chk.programs = len(cases) + len(sp)
+    chk.programs = len(cases) + len(sp) + len(disk)
     chk.disagreements_checked = chk.programs
